@@ -187,3 +187,25 @@ pub extern "C" fn xp_lend(n: u64, stop_at: usize, user: extern "C" fn(CIterator<
     *seen = got.iter().fold(0u64, |a, b| a.wrapping_mul(31).wrapping_add(*b)) + got.len() as u64 * 1_000_000;
     r
 }
+
+// ---- allocator event log of this module (spec/Modules.tla) ----
+#[no_mangle]
+pub extern "C" fn xp_events(on: bool, clock: usize) {
+    ledger::events(on, clock);
+}
+#[no_mangle]
+pub extern "C" fn xp_copy_events(out: *mut ledger::Ev, cap: usize) -> usize {
+    ledger::copy_events(out, cap)
+}
+#[no_mangle]
+pub extern "C" fn xp_mark(code: usize) {
+    ledger::mark(code);
+}
+#[no_mangle]
+pub extern "C" fn xp_events_pause() {
+    ledger::events_pause();
+}
+#[no_mangle]
+pub extern "C" fn xp_drain_events(out: *mut ledger::Ev, cap: usize) -> usize {
+    ledger::drain_events(out, cap)
+}
